@@ -457,7 +457,7 @@ def generate(ctx: Ctx, rep: Report) -> tuple[list[dict], dict, dict]:
         runs.append(("Translate_small.cfg", None, "exhaustive: all programs <= 3 statements, <= 6 expression nodes"))
         sims = [("core1", 40), ("core2", 25), ("outside", 15), ("full", 12)]
     else:
-        runs.append(("Translate_medium.cfg", None, "exhaustive: all programs <= 4 statements, <= 7 expression nodes"))
+        runs.append(("Translate_medium.cfg", None, "exhaustive: all programs <= 3 statements, <= 7 expression nodes"))
         sims = [("core1", 240), ("core2", 160), ("outside", 80), ("full", 80)]
     progs, lib, consts = {}, None, None
     for cfg, _, what in runs:
